@@ -599,9 +599,9 @@ class yanny(OrderedDict):
         except ValueError:
             if self.isarray(structure, variable):
                 return max([max([len(x) for x in r])
-                            for r in self[structure][variable]])
+                            for r in self[structure][variable]], default=1)
             else:
-                return max([len(x) for x in self[structure][variable]])
+                return max([len(x) for x in self[structure][variable]], default=1)
 
     def dtype(self, structure):
         """Returns a NumPy dtype object suitable for describing a table as a
